@@ -22,7 +22,7 @@ func init() {
 			"R16-q — in LString.Format the 'q' verb cannot reach package fmt (Go's %q writes \\x00, \\u… which the Lua reader does not understand); R16-print — LNumber.String renders every integral value with plain digits (extra range conditions only beyond 2^53); R16-strftime — every layout in cDateFlagToGo tokenises completely into Go reference-time tokens and separators and, for directives with a fixed C-locale meaning, equals that meaning (table from ISO C 7.27.3.5); R16-time — the field names os.date('*t') writes include every name os.time reads, os.time builds the time in the local zone and os.date converts to UTC only under '!'. " +
 			"R16-errsense — every user of parseNumber uses the number only on paths where the error is nil. R08-comment shared — a decimal escape \\ddd is written only after an effective check against 255. NOT decided: escape decoding, long brackets, shortest-round-trip printing, integral printing below 2^53 — value properties of strconv/fmt.",
 		Trusted: []string{"C-locale strftime meanings (ISO C) and Go reference-time tokens written out in the checker"},
-		Rules:   []func(*Ctx){ruleDateFromWholeSeconds, ruleTimeAcceptsEveryField, ruleZeroFieldIsZero, ruleHexPrefixOnce, ruleIsIntegerBounded, ruleOneReader, ruleQ, rulePrintInt, ruleStrftime, ruleTime, ruleErrSense, ruleLongComment, ruleNumeralValidatedWhereSkipped, ruleToNumberBase, ruleDigitsOverflowGuard, ruleNumeralTextUnfiltered, ruleWeekNumberFloor, ruleSignBeforePrefix},
+		Rules:   []func(*Ctx){ruleLookaheadGuardIsTight, ruleDateFromWholeSeconds, ruleTimeAcceptsEveryField, ruleZeroFieldIsZero, ruleHexPrefixOnce, ruleIsIntegerBounded, ruleOneReader, ruleQ, rulePrintInt, ruleStrftime, ruleTime, ruleErrSense, ruleLongComment, ruleNumeralValidatedWhereSkipped, ruleToNumberBase, ruleDigitsOverflowGuard, ruleNumeralTextUnfiltered, ruleWeekNumberFloor, ruleSignBeforePrefix},
 	})
 }
 
